@@ -1,5 +1,5 @@
 ENGINES = [
-    {"name": "symx", "path": "verif/symx.py", "serves_properties": ["C11", "C12", "C18"],
+    {"name": "symx", "path": "verif/symx.py", "serves_properties": ["C03", "C11", "C12", "C18"],
      "kind_free_text": "concolic execution of the real chmpy Python on z3 Real/Int terms (numpy names rebound to shims), DFS path forking, z3 5.1 decides each assertion"},
 ]
 NOTES = ("Solver-based checking of the real code. Every check regenerates its encoding from /repo's working tree at run time. "
@@ -19,4 +19,8 @@ CHECKS["C11"] = dict(engine="symx + z3 FP",
     technique="symbolic execution of the packed-code codec (LIA over the whole code space), FP64 bit-precise queries for translation wrap/rounding, LRA for apply forms; string grammar by solver-pruned path enumeration",
     text="encode/decode of the packed integer is executed on a symbolic code and decided for all 34,012,224 codes by single LIA queries; equality/hash/print modulo the lattice is decided under IEEE binary64 semantics for every double within 1e-12 of k/12+n (bounded n); apply on (N,3)/(N,4)/Cartesian forms is decided for arbitrary real operations and cells; string spellings are enumerated from a grammar (finite choice space).",
     note="FP part: one perturbed axis at a time, |n| bounded (see evidence); Fraction.limit_denominator is a validated contract stub; string part is enumeration, not symbolic.")
+CHECKS["C03"] = dict(engine="symx",
+    technique="symbolic execution of the Crystal neighbourhood queries: NRA completeness lemma on the captured slab bounds (all cells/radii/centres), forked slab-layout and KD-tree-answer exploration",
+    text="The real atoms_in_radius/atomic_surroundings/molecule_environment/atom_group_surroundings run on a symbolic cell, radius and centres up to a stubbed slab(); z3 proves per axis that every image within the radius has its cell index inside the captured floor/ceil bounds (Cauchy-Schwarz, no bound on cell or radius) or returns an oblique cell that is replayed against a brute-force periodic search. slab() is executed for every bound box in [-1,1]^3 with symbolic atoms; the selection step is explored over all answer patterns of the KD-tree stub on 3-4 symbolic slab rows.",
+    note="Reals for doubles; cell invariant D.I=1 assumed (C12); cKDTree replaced by its contract; images exactly at the radius excluded; functional_group_surroundings, molecular_shell and symmetry_unique_dimers not encoded.")
 NOT_APPLICABLE = [{"property_id": p, "reason": "check not yet implemented in this round (planned, see DESIGN.md section 3)"} for p in ALL if p not in CHECKS]
